@@ -13,7 +13,7 @@ package rest
 //   edl <g> <parentMs|none> <hdr>               deadline seen by the handler of group g
 //     => dl=<none|parent|window@<ms>|other>      window@<ms>: the configured value whose window [t0+ms, t1+ms] holds the deadline
 //   erest <g> <kind> <k> <hdr> <act>*           gated run of a scripted handler on a route of group g (as `rest` of the
-//     => sret=… atret=… results=… final=… fin=…  rest/handler harness; kind=timer: the wrapper's own real timer)
+//     => sret=… atret=… results=… final=… fin=… leak=…  rest/handler harness; kind=timer: the wrapper's own real timer)
 //   emax                                         the engine's own timeout (http.Server Read/WriteTimeout basis)
 //     => max=<ms>
 
@@ -23,6 +23,7 @@ import (
 	"fmt"
 	"net/http"
 	"net/http/httptest"
+	"runtime"
 	"sort"
 	"strconv"
 	"strings"
@@ -331,6 +332,7 @@ func (e *c04Eng) rest(op []string) string {
 	g, kind, k, hdr := verifh.Atoi(op[1]), op[2], verifh.Atoi(op[3]), op[4]
 	acts := op[5:]
 	direct := hdr == "ws" || hdr == "sse" || hdr == "both" || e.intended[g] <= 0
+	base := runtime.NumGoroutine()
 	parent := newC04Ctx()
 	gate := make(chan struct{})
 	ack := make(chan string)
@@ -409,7 +411,11 @@ func (e *c04Eng) rest(op []string) string {
 		fin, _ = c04WaitS(sdone, c04StuckBound(), "stuck")
 	}
 	final := c04View(rec)
-	return fmt.Sprintf("sret=%s atret=%s results=%s final=%s fin=%s", sret, atret, strings.Join(results, ","), final, fin)
+	leak := 0
+	if !verifh.SettleGoroutines(base, time.Second) {
+		leak = 1
+	}
+	return fmt.Sprintf("sret=%s atret=%s results=%s final=%s fin=%s leak=%d", sret, atret, strings.Join(results, ","), final, fin, leak)
 }
 
 // ---------------------------------------------------------------- generator
